@@ -128,6 +128,11 @@ func (c *ShipConnection) ApprovePendingHandshake() {
 	c.stopHandshakeTimer()
 	c.setAndHandleState(model.SmeHelloStateReadyInit)
 
+	// only move on if the ready message could be sent, otherwise the handshake already ended
+	if c.getState() != model.SmeHelloStateReadyListen {
+		return
+	}
+
 	// TODO: check if we need to do some validations before moving on to the next state
 	c.setAndHandleState(model.SmeHelloStateOk)
 }
